@@ -267,7 +267,7 @@ impl Property for C20 {
         vec!["functional classes outside V (d-text-outside, d-text-vertical, d-surround, ...) and rule order / CSS validity are not judged".into()]
     }
     fn families(&self, tier: Tier) -> Vec<Family<Case>> {
-        vec![Family::enumerated("vocabulary-singletons", singletons()), Family::random("subsets", tier.n(5000, 150_000), fam_subsets)]
+        vec![Family::enumerated("vocabulary-singletons", singletons()), Family::random("subsets", tier.n(20_000, 150_000), fam_subsets)]
     }
     fn judge(&self, c: &Case, _strict: bool) -> Verdict {
         let doc = case_xml(c);
